@@ -22,7 +22,7 @@ ASSUMPTIONS = ["ownership and artefact rules are my reading of the statement (DE
                "either end, a link keeping >=2 ends stays; a ServicePort dies with its peering link",
                "state copies are made by replaying the program (uuid4 is a counter, so ids repeat exactly)",
                "remove_link is only applied to links created by add_link"]
-BUDGET = {"quick": 220, "thorough": 8000}
+BUDGET = {"quick": 220, "thorough": 2500}
 MIN_LABEL_FRACTION = {"nontrivial": 0.3, "substrate": 0.12}
 MAX_PER_KIND = 2
 
